@@ -199,12 +199,18 @@ def execute(ctx, case: dict) -> None:
         except ValueError:
             problems.append(f"sport {port.sport[:60]!r} is not decodable")
     line0 = port.line
-    try:
-        again = reader.read_port(line0.split(), 0, 6 if proto == "tcp" else 17)[0]
-        if again is None or again[2] != wset or again[0] != want[0]:
-            problems.append(f"rendered {line0!r} means {again and intervals.encode(again[2])[:60]!r}")
-    except reader.ReadError as ex:
-        problems.append(f"rendered {line0!r} unreadable: {ex}")
+    if not proto:
+        # an expression built without a protocol renders nothing, but its operator / operands / ports / range string are live
+        ctx.count("expressions_without_protocol")
+        if port.operator != want[0] or sorted(port.items) != sorted(want[1]):
+            problems.append(f"operator/operands {port.operator!r} {port.items} != {want[0]!r} {list(want[1])}")
+    else:
+        try:
+            again = reader.read_port(line0.split(), 0, 6 if proto == "tcp" else 17)[0]
+            if again is None or again[2] != wset or again[0] != want[0]:
+                problems.append(f"rendered {line0!r} means {again and intervals.encode(again[2])[:60]!r}")
+        except reader.ReadError as ex:
+            problems.append(f"rendered {line0!r} unreadable: {ex}")
     for prob in problems:
         ctx.violation(case, "port expression does not denote the Cisco port set", prob)
     # reassignment history: the same object gets other expressions; the invariant tap judges every assignment
@@ -315,6 +321,20 @@ def gen_cases(ctx):
         case = {"k": "expr", "text": port["text"], "proto": proto, "platform": platform, "version": version,
                 "port_nr": rng.random() < 0.3, "history": hist}
         toks = port["text"].split()
+        if all(t.isdigit() for t in toks[1:]) and rng.random() < 0.1:
+            case["proto"] = ""  # numeric operands need no protocol
+            case["port_nr"] = False
+        if len(toks) > 3 and toks[0] in ("eq", "neq") and all(t.isdigit() for t in toks[1:]) and rng.random() < 0.4:
+            # a sibling right afterwards: same operator, same number of operands, same lowest and highest, other inner operands
+            vals = sorted(int(t) for t in toks[1:])
+            if vals[-1] - vals[0] > len(vals):
+                inner = rng.sample(range(vals[0] + 1, vals[-1]), len(vals) - 2)
+                sib = dict(case)
+                sib["text"] = f"{toks[0]} " + " ".join(str(v) for v in [vals[0]] + sorted(inner) + [vals[-1]])
+                sib["history"] = [v for v in case["history"] if v == "items"][:1]
+                yield case
+                yield sib
+                continue
         if platform == "ios" and toks[0] == "eq" and rng.random() < 0.15:
             # repeated operands ('eq 7 7 9'): stored as given; only the denoted set is judged, not the text
             if len(toks) <= 3 and rng.random() < 0.5:  # small window with holes, as many repeats as holes
